@@ -204,9 +204,10 @@ static std::string gen(const std::string &prop, uint64_t base, uint64_t idx, boo
         }
         if (std::string(f->name) == "Vss" && r.chance(0.03)) {
             // the string-array helper: packs a table of strings into the block that datatype 0x8B carries; what it produces depends on the strings only
-            int n = (int)r.range(0, 6);
+            bool bigarr = r.chance(0.12);  // (a table of dozens of long strings: 32-64 KiB packed, what a 16-bit length can describe)
+            int n = (int)(bigarr ? r.range(34, 48) : r.range(0, 6));
             std::string lens;
-            for (int k = 0; k < n; k++) lens += strf("%s%u", k ? "," : "", (unsigned)(r.chance(0.7) ? r.range(0, 12) : r.range(13, 90)));
+            for (int k = 0; k < n; k++) lens += strf("%s%u", k ? "," : "", (unsigned)(bigarr ? r.range(700, 1360) : r.chance(0.7) ? r.range(0, 12) : r.range(13, 90)));
             line(strf("op b=%d strarr n=%d lens=%s stale=0x%x sseed=0x%llx inc=%d", b.id, n, lens.empty() ? "-" : lens.c_str(), (unsigned)r.below(65536), (unsigned long long)r.next(), inc_variant));
             continue;
         }
